@@ -72,16 +72,22 @@ def judge_acl(case) -> Verdict:
         raise Invalid()
     before = acl.line
     detail = {"from": source, "to": target, "before": before, "kwargs": {k: acl_case.get(k) for k in ("port_nr", "protocol_nr", "group_by")}}
+    spelled = case.get("alias") or target
+    if spelled not in G.PLATFORM_ALIASES[target]:
+        raise Invalid()
+    detail["platform_argument"] = spelled
     try:
-        acl.platform = target
+        acl.platform = spelled  # any documented spelling of the platform name
     except (ValueError, TypeError) as ex:
         v.fail("acl:conversion-refused", dict(detail, error=f"{type(ex).__name__}: {ex}"[:300]))
         return v
+    if acl.platform != target:
+        v.fail("acl:platform-attribute", dict(detail, got=acl.platform))
     after = acl.line
     detail["after"] = after
     # (4) strict target syntax + (1)(2) same ordered rule list
     try:
-        hdr, got = G.read_flat(after, target, strict=True)
+        hdr, got = G.read_flat(after, target, acl_case.get("version", "0"), strict=True)
     except R.RefError as ex:
         v.fail("acl:output-not-valid-target-syntax", dict(detail, why=str(ex)[:200]))
         return v
@@ -151,7 +157,16 @@ def acl_case_st(draw, tier):
                         multi=True))
     acl["port_nr"] = draw(st.booleans())
     acl["protocol_nr"] = draw(st.booleans())
-    return {"acl": acl, "to": "nxos" if acl["platform"] == "ios" else "ios"}
+    acl["version"] = draw(st.sampled_from(["0", "0", "0", "15.2(02)SY", "16.09.06"]))
+    if draw(st.sampled_from(range(6))) == 0:
+        # a raised limit and a wildcard that needs it (nothing below expands it into prefixes)
+        aces = [it for it in acl["items"] if it["t"] == "ace"]
+        if aces:
+            acl["max_ncwb"] = 30
+            wide = 0x03FFFE00 | draw(st.integers(0, 255)) << 1  # >= 17 non-contiguous bits
+            draw(st.sampled_from(aces))["rec"]["src"] = {"k": "wild", "b": 0x0A000001, "w": wide & ~1}
+    to = "nxos" if acl["platform"] == "ios" else "ios"
+    return {"acl": acl, "to": to, "alias": draw(G.alias_st(to))}
 
 
 # --------------------------------------------------------------------------------------- single objects
@@ -166,7 +181,7 @@ def judge_ace(case) -> Verdict:
     multi = any(rec.get(s) and rec[s]["op"] in ("eq", "neq") and len(rec[s]["v"]) > 1 for s in ("sp", "dp"))
     detail = {"from": source, "to": target, "before": before}
     try:
-        ace.platform = target
+        ace.platform = case.get("alias") or target
     except ValueError as ex:
         if multi and target == "nxos":
             v.label("refused-multiport")
@@ -208,7 +223,8 @@ def judge_ace(case) -> Verdict:
 def ace_case_st(draw, tier):
     source = draw(st.sampled_from(["ios", "nxos"]))
     rec = draw(G.ace_st(source, kmax=4, groups=True, members=True, noise=False, neq_multi=True))
-    return {"rec": rec, "from": source, "to": "nxos" if source == "ios" else "ios",
+    to = "nxos" if source == "ios" else "ios"
+    return {"rec": rec, "from": source, "to": to, "alias": draw(G.alias_st(to)),
             "port_nr": draw(st.booleans()), "protocol_nr": draw(st.booleans())}
 
 
@@ -224,7 +240,7 @@ def judge_address(case) -> Verdict:
     if a["k"] == "group":
         ad.items = A.member_lines(a)
     before = ad.line
-    ad.platform = target
+    ad.platform = case.get("alias") or target
     after = ad.line
     detail = {"from": source, "to": target, "before": before, "after": after}
     try:
@@ -255,7 +271,8 @@ def judge_address(case) -> Verdict:
 @st.composite
 def address_case_st(draw, tier):
     source = draw(st.sampled_from(["ios", "nxos"]))
-    return {"a": draw(G.addr_st(kmax=6, groups=True)), "from": source, "to": "nxos" if source == "ios" else "ios"}
+    to = "nxos" if source == "ios" else "ios"
+    return {"a": draw(G.addr_st(kmax=6, groups=True)), "from": source, "to": to, "alias": draw(G.alias_st(to))}
 
 
 def judge_addrgroup(case) -> Verdict:
@@ -279,7 +296,7 @@ def judge_addrgroup(case) -> Verdict:
         obj = AddressAg(body[0], platform=source)
         before = obj.line
         try:
-            obj.platform = target
+            obj.platform = case.get("alias") or target
         except ValueError:
             if target == "ios" and (not R.is_contiguous(members[0][1]) or members[0][1] == R.ALL1):
                 v.label("refused-inexpressible")
@@ -307,7 +324,7 @@ def judge_addrgroup(case) -> Verdict:
     before = grp.line
     detail = {"from": source, "to": target, "before": before}
     try:
-        grp.platform = target
+        grp.platform = case.get("alias") or target
     except ValueError as ex:
         if inexpressible:
             v.label("refused-inexpressible")
@@ -351,7 +368,8 @@ def addrgroup_case_st(draw, tier):
             plen = draw(st.integers(1, 32))
             w = (1 << (32 - plen)) - 1
         members.append([draw(G.base_st()) & ~w & R.ALL1, w])
-    return {"from": source, "to": "nxos" if source == "ios" else "ios", "members": members,
+    to_ = "nxos" if source == "ios" else "ios"
+    return {"from": source, "to": to_, "alias": draw(G.alias_st(to_)), "members": members,
             "seqs": draw(st.lists(st.integers(0, 90), max_size=3)) if source == "nxos" else [],
             "single": draw(st.integers(0, 3)) == 0, "indent": draw(st.sampled_from([" ", "  ", "   "]))}
 
